@@ -245,6 +245,18 @@ class DU:
                 if e[0] == "f" and isinstance(cur, dict) and "fields" in cur and e[2] in cur["fields"]:
                     cur = cur["fields"][e[2]]
                     path.append(e[2])
+                elif e[0] == "i" and isinstance(cur, dict) and "fields" in cur and depth < 12:
+                    # CONST_ARRAY[k] with a constant k
+                    iv = self.val_place((e[1], ()), depth + 1)
+                    if iv[0] == "const" and isinstance(iv[1], int) and not isinstance(iv[1], bool) and str(iv[1]) in cur["fields"]:
+                        cur = cur["fields"][str(iv[1])]
+                        path.append(str(iv[1]))
+                    else:
+                        ok = False
+                        break
+                elif e[0] == "ci" and isinstance(cur, dict) and "fields" in cur and str(e[1]) in cur["fields"]:
+                    cur = cur["fields"][str(e[1])]
+                    path.append(str(e[1]))
                 else:
                     ok = False
                     break
